@@ -282,6 +282,12 @@ def h_fermion_op(env, nq, mapping, order, steps, time_mode="scalar", canary=Fals
         t1, t2 = env.real("t1", lo=-2, hi=2), env.real("t2", lo=-2, hi=2)
         times = {terms[0][0]: t1, terms[1][0]: t1, terms[2][0]: t2}
         time = dict(times)
+    # the caller's operator is evolved TWICE (e.g. once per step count of a scan): it is left untouched and the second circuit,
+    # the one checked below, is the evolution of the same operator
+    before = dict(op.terms)
+    trotterize(op, time=time, n_trotter_steps=steps, trotter_order=order, return_phase=True,
+               mapping_options={"qubit_mapping": mapping, "n_spinorbitals": nq})
+    env.check_true(dict(op.terms) == before, "trotterize leaves the caller's FermionOperator unchanged", detail=f"{before} -> {dict(op.terms)}"[:300])
     circ, phase = trotterize(op, time=time, n_trotter_steps=steps, trotter_order=order, return_phase=True,
                              mapping_options={"qubit_mapping": mapping, "n_spinorbitals": nq})
     U = R.unitary(circ._gates, nq)
